@@ -347,7 +347,7 @@ pub fn run(run: &mut Run) {
         "All strings of length <= {maxlen} over 16 character-class representatives {ALPHABET:?} (complete), plus runs of 254..65 537 reserved characters / carets / colour tokens, plus random strings \
          of up to 64 characters with ~25% carets (proptest). Oracles: unescape(escape(s)) == s; escape(s) contains no raw \
          reserved character; unescape(decode(encode(escape(s)))) == s for encodable text; strip == token model, idempotent, \
-         identity on colourless text. Non-trivial = >= 2 carets or a caret followed by a letter."
+         identity on colourless text. Sender / receiver path: the escaped text is sent in a text field of a packet, padded so that its encoded form fills the field exactly or leaves one byte, and what the receiver decodes is unescaped. Non-trivial = >= 2 carets or a caret followed by a letter."
     );
     run.assumptions = vec!["token model of strip: `^^` atomic and kept, `^0`..`^9` removed, everything else kept".into()];
     let total: u64 = (0..=maxlen).map(|k| 16u64.pow(k)).sum();
